@@ -192,11 +192,21 @@ def chain_of(d):
     return mode, valid[:3], (amounts + [0, 0, 0])[:3]
 
 
-def r_chain(d):
-    mode, valid, amounts = chain_of(d)
+def _r_chain_state(mode, valid, amounts):
     if mode != "ok":
         return "ChainErr"
     return "(ChainOk %s)" % clist(["(%s, %s)" % (cbool(v), cN(a)) for v, a in zip(valid, amounts)])
+
+
+def r_chain(d):
+    """what the node's eth_call sees: the model picks the mined or the pending state according to the block tag
+    the source asks for (chain_queried); `valid` is the mined state, `pending_valid` the pending one"""
+    mode, valid, amounts = chain_of(d)
+    latest = _r_chain_state(mode, valid, amounts)
+    pend = (d.get("chain") or {}).get("pending_valid")
+    if pend is None:
+        return latest
+    return "(chain_queried %s %s)" % (latest, _r_chain_state(mode, (list(pend) + [True] * 3)[:3], amounts))
 
 
 def r_body(b):
@@ -920,4 +930,95 @@ def reg_branch_cases():
                     body = reg(1, 1, ops=[op(i, 1) for i in shared] + [op(new, writer)], perm=[2])
                     for d in (delivery("repl", body), delivery("client", body), delivery("client", body, paid=True)):
                         cs.append(case("reg-branch", [copy.deepcopy(d)], store=[copy.deepcopy(prior)]))
+    return cs
+
+
+# ------------------------------------------------------------------------------------------- long histories on the real store
+
+def long_history_cases():
+    """two versions of the same mutable record with many unrelated records in between, against the REAL
+    NodeRecordStore (case flag "realstore": PutLocalRecord -> put_verified, acknowledgements -> mark_as_stored,
+    queries -> contains / get), so that the first version has left the 25-entry FIFO read cache when the second
+    arrives; the store is read back after every delivery"""
+    cs = []
+
+    def filler(n, base):
+        return [delivery("repl", {"t": "chunk", "c": {"d": base + i}}) for i in range(n)]
+
+    firsts = {
+        "pad": (pad(1, 4), [pad(1, 5, data=55), pad(1, 4, data=44), pad(1, 9, sig="junk")]),
+        "reg": (reg(1, 1, ops=[op(1, 1)], perm=[2]), [reg(1, 1, ops=[op(2, 2)], perm=[2]), reg(1, 1, ops=[op(1, 1)], perm=[2])]),
+        "tx": (tx(1, 1), [tx(1, 2), tx(1, 1)]),
+    }
+    for fam, (first, seconds) in firsts.items():
+        for gap, cache in ((30, None), (27, None), (5, 3), (2, None)):
+            for second in seconds:
+                for entry in ("repl", "unpaid", "paid"):
+                    if fam == "tx" and entry == "unpaid":
+                        continue
+                    b1 = first if fam != "tx" else {"t": "txs", "list": [first]}
+                    d1 = delivery("repl", b1)
+                    if entry == "repl":
+                        d2 = delivery("repl", second if fam != "tx" else {"t": "txs", "list": [second]})
+                    else:
+                        d2 = delivery("client", second, paid=(entry == "paid"))
+                    # a third version afterwards: progress must still be possible
+                    third = {"pad": pad(1, 12), "reg": reg(1, 1, ops=[op(3, 1)], perm=[2]), "tx": {"t": "txs", "list": [tx(1, 3)]}}[fam]
+                    ds = [d1] + filler(gap, 100) + [d2] + filler(gap, 200) + [delivery("repl", third)]
+                    c = case("long-" + fam, copy.deepcopy(ds))
+                    c["realstore"] = True
+                    if cache is not None:
+                        c["cache"] = cache
+                    cs.append(c)
+    return cs
+
+
+# ------------------------------------------------------------------------------------------- re-encoded quote public keys
+
+PUBENCS = ("trailing", "trailing2", "varint", "lenvarint")
+
+
+def reencoded_pubkey_cases():
+    """PaymentQuote.pub_key is not covered by the quote's signature, and the protobuf decoder accepts
+    non-canonical encodings of the same key (unknown trailing fields, non-minimal varints): the node's OWN genuine
+    quote for address A, with its pub_key bytes re-encoded, presented with data at address B (all payable kinds),
+    and -- control -- with data at A"""
+    cs = []
+    A = {"chunk": {"d": 1}}
+    bodies = [{"t": "chunk", "c": {"d": 2}}, pad(1, 1), reg(1, 1), tx(1, 1), {"t": "chunk", "c": {"d": 1}}]
+    for enc in PUBENCS:
+        for who in ("own", "all", "other"):
+            for b in bodies:
+                p = good_proof(A)
+                for i, q in enumerate(p["quotes"]):
+                    if who == "all" or (who == "own" and q["pub"] == 0) or (who == "other" and q["pub"] == 1):
+                        q["pubenc"] = enc
+                cs.append(case("pubkey-reencoded", [delivery("client", copy.deepcopy(b), paid=True, proof=p)]))
+            # honest address, re-encoded key: still a fully valid payment for this very address
+            b = {"t": "chunk", "c": {"d": 3}}
+            p = good_proof(key_of_body(b))
+            p["quotes"][0]["pubenc"] = enc
+            cs.append(case("pubkey-reencoded-honest", [delivery("client", b, paid=True, proof=p)]))
+    return cs
+
+
+# ------------------------------------------------------------------------------------------- pending-only payments
+
+def pending_payment_cases():
+    """the payForQuotes transaction is only in the mempool: the contract's MINED state says 'not paid', its PENDING
+    state says 'paid' (and the reverse, and both); the stub answers eth_call according to the requested block tag"""
+    cs = []
+    bodies = [{"t": "chunk", "c": {"d": 1}}, pad(1, 1), reg(1, 1), tx(1, 1)]
+    states = [([True, False, True], [True, True, True]), ([False, False, False], [True, True, True]),
+              ([True, True, True], [True, False, True]), ([True, True, True], [True, True, True]),
+              ([False, True, True], [False, True, True])]
+    for b in bodies:
+        for mined, pend in states:
+            for store in ([], "held"):
+                d = delivery("client", copy.deepcopy(b), paid=True)
+                d["chain"] = {"mode": "ok", "valid": mined, "pending_valid": pend}
+                st = []
+                if store == "held" and b["t"] != "chunk":
+                    st = [held(pad(1, 0, data=3))] if b["t"] == "pad" else ([held(reg(1, 1))] if b["t"] == "reg" else [held({"t": "txs", "list": [tx(1, 9)]})])
+                cs.append(case("pending-payment", [d], store=st))
     return cs
